@@ -62,6 +62,19 @@ FAMILIES: Dict[str, Dict[str, Any]] = {
         "invariants": [],
         "properties": ["PTimingExact", "PTrafficPartition", "PSeqGapFree"],
     },
+    "StatsNoTiming": {      # the manager started with send_msg_timing=False (-T): no TIMING_MESSAGE, MESSAGE_TRAFFIC unchanged
+        "module": "MC_Stats",
+        "spec": "SSpec",
+        "const": dict(MaxModules=200, DynStart=100, MaxHosts=5, MaxMsgTypes=4, TrafficChunk=2, MaxActive=256,
+                      TimingOn="FALSE", Modes='{"deferred"}', Conns='{"a", "m"}',
+                      MaxQ=2, MaxDeaths=0, MaxEnv=4, TickSteps="{1, 2, 3}", MaxNow=7, AllowOpen="FALSE",
+                      AllowFin="FALSE", AllowRst="FALSE", GenDepth=100, AnyW="FALSE"),
+        "subst": {"Setup": "SSetup", "Alpha": "SAlpha"},
+        "quick": dict(MaxEnv=3, MaxNow=5),
+        "gen": dict(REAL, MaxEnv=8, MaxNow=24, TickSteps="{1, 2, 3, 11}"),
+        "invariants": [],
+        "properties": ["PTimingExact", "PTrafficPartition", "PSeqGapFree"],
+    },
     "Hostile": {
         "module": "MC_Hostile",
         "const": dict(REAL, TimingOn="TRUE", Modes='{"deferred"}', Conns='{"a", "s", "h"}',
